@@ -1,5 +1,5 @@
 From Verif Require Import Base.Sx Model.Http.
-From Coq Require Import Lia Permutation.
+From Coq Require Import Lia Permutation Bool.
 
 (* proof-internal accumulator form of the line split (never executed) *)
 Fixpoint split_acc (b acc : bytes) : list bytes * bytes :=
@@ -289,4 +289,561 @@ Proof.
   cbn. destruct (id_run_inv ops _ id_inv0) as [ND _].
   destruct (NoDup_app_inv _ _ ND) as (_ & Hh & Hx). split; [exact Hh|].
   intros x H1 H2. exact (Hx x H2 H1).
+Qed.
+
+(* ---- which = 8: what a verdict of the gated histories means ---------------------------------------------- *)
+Lemma http_sx_eqb_sound : forall a b, sx_eqb a b = true -> a = b.
+Proof.
+  fix IH 1. intros a b. destruct a as [x|x|x]; destruct b as [y|y|y]; cbn [sx_eqb]; try discriminate.
+  - intros H. apply Z.eqb_eq in H. now subst.
+  - revert y. induction x as [|p x IHx]; intros [|q y]; cbn; try discriminate; [reflexivity|].
+    intros H. apply andb_true_iff in H. destruct H as [H1 H2]. apply N.eqb_eq in H1. subst.
+    specialize (IHx y H2). now inversion IHx.
+  - revert y. induction x as [|p x IHx]; intros [|q y]; try discriminate; [reflexivity|].
+    intros H. apply andb_true_iff in H. destruct H as [H1 H2].
+    apply IH in H1. subst. specialize (IHx y H2). now inversion IHx.
+Qed.
+
+(* what the judge of the gated histories (which = 8) accepts for one request *)
+Definition gated_req_ok (r o : sx) : Prop :=
+  exists gz reads parks rds evs st,
+    r = SL [SZ gz; reads; SL parks] /\ as_list rd_of_sx reads = Some rds /\ o = SL [SL evs; SZ st] /\
+    (st = 200 -> no_err rds = true /\ evs = map SB (split_body (concat (chunks_of rds)))) /\
+    (st <> 200 -> no_err rds = false).
+
+Lemma c11_pred_meaning reads rds o :
+  as_list rd_of_sx reads = Some rds -> c11_pred reads o = true ->
+  exists evs st, o = SL [SL evs; SZ st] /\
+    (st = 200 -> no_err rds = true /\ evs = map SB (split_body (concat (chunks_of rds)))) /\
+    (st <> 200 -> no_err rds = false).
+Proof.
+  intros Hr H. unfold c11_pred in H. rewrite Hr in H.
+  destruct o as [?|?|[|[?|?|evs] [|[st|?|?] [|? ?]]]]; try discriminate.
+  exists evs, st. split; [reflexivity|].
+  destruct (Z.eqb st 200) eqn:E.
+  - apply Z.eqb_eq in E. apply andb_prop in H as [H1 H2]. apply http_sx_eqb_sound in H2.
+    split; [|intros; contradiction]. intros _. split; [exact H1|]. now inversion H2.
+  - apply Z.eqb_neq in E. apply negb_true_iff in H. split; [intros; contradiction|]. intros _. exact H.
+Qed.
+
+Lemma gated_one_meaning r o m : gated_one r o = Some (m, true) -> gated_req_ok r o.
+Proof.
+  unfold gated_one.
+  destruct r as [?|?|[|[gz|?|?] [|reads [|[?|?|parks] [|? ?]]]]]; try discriminate.
+  destruct (gated_reads_ok gz reads && all_ints parks); [|discriminate].
+  destruct (c11_model reads) as [m'|] eqn:Hm; [|discriminate].
+  intros H. inversion H as [[Hm' Hp]]; subst m'; clear H.
+  unfold c11_model in Hm. destruct (as_list rd_of_sx reads) as [rds|] eqn:Hr; [|discriminate].
+  destruct (c11_pred_meaning _ _ _ Hr Hp) as (evs & st & Ho & H1 & H2).
+  exists gz, reads, parks, rds, evs, st. auto.
+Qed.
+
+Lemma pairs_go_true f : forall rs os ms, pairs_go f rs os = Some (ms, true) ->
+  Forall2 (fun r o => exists m, f r o = Some (m, true)) rs os.
+Proof.
+  induction rs as [|r rs IH]; intros os ms H; destruct os as [|o os]; cbn [pairs_go] in H; try discriminate.
+  - constructor.
+  - destruct (f r o) as [[m ok]|] eqn:Hf; [|discriminate].
+    destruct (pairs_go f rs os) as [[ms' oks]|] eqn:Hg; [|discriminate].
+    inversion H; subst. apply andb_prop in H2 as [-> ->].
+    constructor; [exists m; exact Hf|eapply IH; exact Hg].
+Qed.
+
+(* a verdict Agree / Differ on a gated history means: whatever GOMAXPROCS, the park positions, the order in which the
+   requests ran / were released and the poison steps were, every request answered 200 delivered - as the controller
+   read it AFTER its gate was released - exactly the newline split of ITS OWN body, and no request whose reads all
+   succeeded was answered anything but 200 *)
+Lemma gated_verdict_sound case obs :
+  (c11_gated_run case obs = Agree \/ exists m, c11_gated_run case obs = Differ m) ->
+  exists cfg reqs steps outs,
+    case = SL [SL cfg; SL reqs; SL steps] /\ obs = SL outs /\ Forall2 gated_req_ok reqs outs.
+Proof.
+  intros H. unfold c11_gated_run in H.
+  destruct case as [?|?|[|[?|?|cfg] [|[?|?|reqs] [|[?|?|steps] [|? ?]]]]];
+    try (destruct H as [H|[m H]]; discriminate).
+  destruct (all_ints cfg && all_ints steps); [|destruct H as [H|[m H]]; discriminate].
+  unfold pairs_run in H. destruct obs as [?|?|outs]; try (destruct H as [H|[m H]]; discriminate).
+  destruct (pairs_go gated_one reqs outs) as [[ms ok]|] eqn:Hg; [|destruct H as [H|[m H]]; discriminate].
+  destruct ok; [|destruct H as [H|[m H]]; discriminate].
+  exists cfg, reqs, steps, outs. repeat split.
+  pose proof (pairs_go_true _ _ _ _ Hg) as F. clear Hg H.
+  induction F as [|r o rs os [m Hm] F IH]; constructor; [eapply gated_one_meaning; exact Hm|exact IH].
+Qed.
+
+
+(* ---- buffer-level machine: no request ever sees bytes another one wrote ----------------------- *)
+Lemma get2_set2_same {A} (t : two A) s x : get2 (set2 t s x) s = x.
+Proof. destruct s; reflexivity. Qed.
+Lemma get2_set2_other {A} (t : two A) s s' x : s <> s' -> get2 (set2 t s x) s' = get2 t s'.
+Proof. destruct s, s'; intros H; try reflexivity; congruence. Qed.
+Lemma slot_dec (a b : slot) : a = b \/ a <> b.
+Proof. destruct a, b; (left; reflexivity) || (right; discriminate). Qed.
+Lemma upd_same {A} (f : nat -> A) k x : upd f k x k = x.
+Proof. unfold upd. rewrite Nat.eqb_refl. reflexivity. Qed.
+Lemma upd_other {A} (f : nat -> A) k x j : j <> k -> upd f k x j = f j.
+Proof. unfold upd. intros H. apply Nat.eqb_neq in H. rewrite H. reflexivity. Qed.
+Lemma upd_cases {A} (f : nat -> A) k x j :
+  (j = k /\ upd f k x j = x) \/ (j <> k /\ upd f k x j = f j).
+Proof.
+  destruct (Nat.eq_dec j k) as [->|H]; [left; split; [reflexivity|apply upd_same]|right; split; [exact H|apply upd_other, H]].
+Qed.
+Lemma existsb_eqb_in b l : existsb (Nat.eqb b) l = true <-> In b l.
+Proof.
+  rewrite existsb_exists. split.
+  - intros (x & Hi & E). apply Nat.eqb_eq in E. subst; exact Hi.
+  - intros H; exists b; split; [exact H|apply Nat.eqb_refl].
+Qed.
+
+Definition is_pending (rs : rstate) : bool := match pend rs with Some _ => true | None => false end.
+Definition pend_d (rs : rstate) : list bytes := match pend rs with Some (_, _, _, d) => [d] | None => [] end.
+
+Record inv (progs : nat -> list op) (st : mstate) : Prop := mkInv {
+  i_nodup : NoDup (pool st);
+  i_lt : forall b, In b (pool st) -> (b < fresh st)%nat;
+  i_own : forall r s, get2 (own (rq st r)) s = true ->
+      exists b, get2 (arr (rq st r)) s = Some b /\ (b < fresh st)%nat /\ ~ In b (pool st) /\
+                heap st b = get2 (loc (rq st r)) s;
+  i_excl : forall r s r' s' b, get2 (own (rq st r)) s = true -> get2 (own (rq st r')) s' = true ->
+      get2 (arr (rq st r)) s = Some b -> get2 (arr (rq st r')) s' = Some b -> r = r' /\ s = s';
+  i_pend : forall r b off len d, pend (rq st r) = Some (b, off, len, d) ->
+      exists s, get2 (own (rq st r)) s = true /\ get2 (arr (rq st r)) s = Some b /\
+                view (get2 (loc (rq st r)) s) off len = d;
+  i_wf : forall r, wf_from (own (rq st r)) (is_pending (rq st r)) (prog (rq st r)) = true;
+  i_out : forall r, rev (outs (rq st r)) ++ pend_d (rq st r) ++ intended (loc (rq st r)) (prog (rq st r))
+                    = intended (mk2 [] []) (progs r)
+}.
+
+Ltac upd_split r0 :=
+  match goal with
+  | H : context [upd ?f ?k ?x r0] |- _ =>
+      let E := fresh "E" in let U := fresh "U" in
+      destruct (upd_cases f k x r0) as [[E U]|[E U]]; rewrite ?U in *
+  | |- context [upd ?f ?k ?x r0] =>
+      let E := fresh "E" in let U := fresh "U" in
+      destruct (upd_cases f k x r0) as [[E U]|[E U]]; rewrite ?U in *
+  end.
+
+Lemma not_pending_none rs : is_pending rs = false -> pend rs = None.
+Proof. unfold is_pending. destruct (pend rs); [discriminate|reflexivity]. Qed.
+
+Lemma inv_init progs :
+  (forall r, wf_from (mk2 false false) false (progs r) = true) -> inv progs (init_st progs).
+Proof.
+  intros Hwf. constructor; cbn.
+  - constructor.
+  - intros b [].
+  - intros r s H. destruct s; discriminate.
+  - intros r s r' s' b H. destruct s; discriminate.
+  - intros; discriminate.
+  - intros r. apply Hwf.
+  - intros r. reflexivity.
+Qed.
+
+Section Step.
+Variable progs : nat -> list op.
+Variable st : mstate.
+Hypothesis I : inv progs st.
+Variable r : nat.
+Variable rest : list op.
+
+Let rs := rq st r.
+
+Lemma inv_write k s d : prog (rq st r) = OWrite s d :: rest ->
+  inv progs (exec_op st r k (rq st r) (OWrite s d) rest).
+Proof.
+  intros Hp. pose proof (i_wf _ _ I r) as Hwf. rewrite Hp in Hwf. cbn [wf_from] in Hwf.
+  apply andb_prop in Hwf as [Hwf Hrest]. apply andb_prop in Hwf as [Hnp Hown].
+  apply negb_true_iff in Hnp. pose proof (not_pending_none _ Hnp) as Hpn.
+  destruct (i_own _ _ I r s Hown) as (b & Harr & Hlt & Hnin & Hheap).
+  pose proof (i_out _ _ I r) as Hout. rewrite Hp in Hout. unfold pend_d in Hout. rewrite Hpn in Hout.
+  unfold exec_op. rewrite Harr.
+  constructor; cbn [heap pool fresh rq].
+  - exact (i_nodup _ _ I).
+  - exact (i_lt _ _ I).
+  - intros r0 s0 Ho. upd_split r0; cbn [own arr loc] in *.
+    + subst r0. destruct (slot_dec s s0) as [<-|Hs].
+      * exists b. rewrite get2_set2_same, upd_same. auto.
+      * destruct (i_own _ _ I r s0 Ho) as (b' & A' & L' & N' & H').
+        exists b'. rewrite get2_set2_other by exact Hs. repeat split; auto.
+        rewrite upd_other; [exact H'|]. intros ->.
+        destruct (i_excl _ _ I r s r s0 b Hown Ho Harr A') as [_ E']. auto.
+    + destruct (i_own _ _ I r0 s0 Ho) as (b' & A' & L' & N' & H').
+      exists b'. repeat split; auto. rewrite upd_other; [exact H'|]. intros ->.
+      destruct (i_excl _ _ I r s r0 s0 b Hown Ho Harr A') as [E' _]. auto.
+  - intros r0 s0 r1 s1 b0 Ho0 Ho1 A0 A1.
+    upd_split r0; upd_split r1; cbn [own arr loc] in *; subst; eapply (i_excl _ _ I); eauto.
+  - intros r0 b0 off len d0 Hpd. upd_split r0; cbn [pend own arr loc] in *.
+    + congruence.
+    + exact (i_pend _ _ I r0 _ _ _ _ Hpd).
+  - intros r0. upd_split r0; [|exact (i_wf _ _ I r0)].
+    unfold is_pending; cbn [pend own prog]. rewrite Hpn. exact Hrest.
+  - intros r0. upd_split r0; [|exact (i_out _ _ I r0)].
+    subst r0. unfold pend_d; cbn [outs pend loc prog]. rewrite Hpn. exact Hout.
+Qed.
+
+Lemma inv_in k s off len : prog (rq st r) = OIn s off len :: rest ->
+  inv progs (exec_op st r k (rq st r) (OIn s off len) rest).
+Proof.
+  intros Hp. pose proof (i_wf _ _ I r) as Hwf. rewrite Hp in Hwf. cbn [wf_from] in Hwf.
+  apply andb_prop in Hwf as [Hwf Hrest]. apply andb_prop in Hwf as [Hnp Hown].
+  apply negb_true_iff in Hnp. pose proof (not_pending_none _ Hnp) as Hpn.
+  destruct (i_own _ _ I r s Hown) as (b & Harr & Hlt & Hnin & Hheap).
+  pose proof (i_out _ _ I r) as Hout. rewrite Hp in Hout. unfold pend_d in Hout. rewrite Hpn in Hout.
+  unfold exec_op. rewrite Harr.
+  constructor; cbn [heap pool fresh rq].
+  - exact (i_nodup _ _ I).
+  - exact (i_lt _ _ I).
+  - intros r0 s0 Ho. upd_split r0; cbn [own arr loc] in *; [subst r0|]; exact (i_own _ _ I _ _ Ho).
+  - intros r0 s0 r1 s1 b0 Ho0 Ho1 A0 A1.
+    upd_split r0; upd_split r1; cbn [own arr loc] in *; subst; eapply (i_excl _ _ I); eauto.
+  - intros r0 b0 off0 len0 d0 Hpd. upd_split r0; cbn [pend own arr loc] in *.
+    + inversion Hpd; subst. exists s. rewrite <- Hheap. auto.
+    + exact (i_pend _ _ I r0 _ _ _ _ Hpd).
+  - intros r0. upd_split r0; [|exact (i_wf _ _ I r0)].
+    unfold is_pending; cbn [pend own prog]. exact Hrest.
+  - intros r0. upd_split r0; [|exact (i_out _ _ I r0)].
+    subst r0. unfold pend_d; cbn [outs pend loc prog]. rewrite <- Hout. cbn [intended app].
+    rewrite Hheap. reflexivity.
+Qed.
+
+Lemma inv_ret k : prog (rq st r) = ORet :: rest ->
+  inv progs (exec_op st r k (rq st r) ORet rest).
+Proof.
+  intros Hp. pose proof (i_wf _ _ I r) as Hwf. rewrite Hp in Hwf. cbn [wf_from] in Hwf.
+  apply andb_prop in Hwf as [Hpe Hrest].
+  unfold is_pending in Hpe. destruct (pend (rq st r)) as [[[[b off] len] d]|] eqn:Hpd; [|discriminate].
+  destruct (i_pend _ _ I r _ _ _ _ Hpd) as (s & Hown & Harr & Hview).
+  destruct (i_own _ _ I r s Hown) as (b' & Harr' & Hlt & Hnin & Hheap).
+  assert (b' = b) by congruence. subst b'.
+  pose proof (i_out _ _ I r) as Hout. rewrite Hp in Hout. unfold pend_d in Hout. rewrite Hpd in Hout.
+  unfold exec_op. rewrite Hpd.
+  constructor; cbn [heap pool fresh rq].
+  - exact (i_nodup _ _ I).
+  - exact (i_lt _ _ I).
+  - intros r0 s0 Ho. upd_split r0; cbn [own arr loc] in *; [subst r0|]; exact (i_own _ _ I _ _ Ho).
+  - intros r0 s0 r1 s1 b0 Ho0 Ho1 A0 A1.
+    upd_split r0; upd_split r1; cbn [own arr loc] in *; subst; eapply (i_excl _ _ I); eauto.
+  - intros r0 b0 off0 len0 d0 Hpd0. upd_split r0; cbn [pend own arr loc] in *.
+    + discriminate.
+    + exact (i_pend _ _ I r0 _ _ _ _ Hpd0).
+  - intros r0. upd_split r0; [|exact (i_wf _ _ I r0)].
+    unfold is_pending; cbn [pend own prog]. exact Hrest.
+  - intros r0. upd_split r0; [|exact (i_out _ _ I r0)].
+    subst r0. unfold pend_d; cbn [outs pend loc prog rev]. rewrite <- Hout. cbn [intended app].
+    rewrite Hheap, Hview, <- app_assoc. reflexivity.
+Qed.
+
+Lemma inv_put k s : prog (rq st r) = OPut s :: rest ->
+  inv progs (exec_op st r k (rq st r) (OPut s) rest).
+Proof.
+  intros Hp. pose proof (i_wf _ _ I r) as Hwf. rewrite Hp in Hwf. cbn [wf_from] in Hwf.
+  apply andb_prop in Hwf as [Hwf Hrest]. apply andb_prop in Hwf as [Hnp Hown].
+  apply negb_true_iff in Hnp. pose proof (not_pending_none _ Hnp) as Hpn.
+  destruct (i_own _ _ I r s Hown) as (b & Harr & Hlt & Hnin & Hheap).
+  pose proof (i_out _ _ I r) as Hout. rewrite Hp in Hout. unfold pend_d in Hout. rewrite Hpn in Hout.
+  unfold exec_op. rewrite Harr.
+  constructor; cbn [heap pool fresh rq].
+  - constructor; [exact Hnin|exact (i_nodup _ _ I)].
+  - intros b0 [<-|Hi]; [exact Hlt|exact (i_lt _ _ I _ Hi)].
+  - intros r0 s0 Ho. upd_split r0; cbn [own arr loc] in *.
+    + subst r0. destruct (slot_dec s s0) as [<-|Hs].
+      * rewrite get2_set2_same in Ho. discriminate.
+      * rewrite get2_set2_other in Ho by exact Hs.
+        destruct (i_own _ _ I r s0 Ho) as (b' & A' & L' & N' & H').
+        exists b'. repeat split; auto. intros [<-|Hi]; [|exact (N' Hi)].
+        destruct (i_excl _ _ I r s r s0 b Hown Ho Harr A') as [_ E']. auto.
+    + destruct (i_own _ _ I r0 s0 Ho) as (b' & A' & L' & N' & H').
+      exists b'. repeat split; auto. intros [<-|Hi]; [|exact (N' Hi)].
+      destruct (i_excl _ _ I r s r0 s0 b Hown Ho Harr A') as [E' _]. auto.
+  - assert (Hsub : forall s0, get2 (set2 (own (rq st r)) s false) s0 = true -> get2 (own (rq st r)) s0 = true).
+    { intros s0. destruct (slot_dec s s0) as [<-|Hs]; [rewrite get2_set2_same; discriminate|].
+      rewrite get2_set2_other by exact Hs. auto. }
+    intros r0 s0 r1 s1 b0 Ho0 Ho1 A0 A1.
+    upd_split r0; upd_split r1; cbn [own arr loc] in *; subst; eapply (i_excl _ _ I); eauto.
+  - intros r0 b0 off0 len0 d0 Hpd0. upd_split r0; cbn [pend own arr loc] in *.
+    + congruence.
+    + exact (i_pend _ _ I r0 _ _ _ _ Hpd0).
+  - intros r0. upd_split r0; [|exact (i_wf _ _ I r0)].
+    unfold is_pending; cbn [pend own prog]. rewrite Hpn. exact Hrest.
+  - intros r0. upd_split r0; [|exact (i_out _ _ I r0)].
+    subst r0. unfold pend_d; cbn [outs pend loc prog]. rewrite Hpn. exact Hout.
+Qed.
+
+Lemma take_pool_spec k b pl fr :
+  take_pool k st = (b, pl, fr) ->
+  NoDup pl /\ (forall x, In x pl -> In x (pool st) /\ x <> b) /\ (fresh st <= fr)%nat /\ (b < fr)%nat /\
+  (In b (pool st) \/ b = fresh st).
+Proof.
+  unfold take_pool. destruct (nth_error (pool st) k) as [x|] eqn:Hk; intros H; inversion H; subst; clear H.
+  - destruct (remove_nth_split _ _ _ Hk) as (a & c & E1 & E2). rewrite E2.
+    pose proof (i_nodup _ _ I) as ND. rewrite E1 in ND.
+    pose proof (NoDup_remove_1 _ _ _ ND) as ND1. pose proof (NoDup_remove_2 _ _ _ ND) as ND2.
+    assert (Hin : In b (pool st)) by (rewrite E1; apply in_or_app; right; left; reflexivity).
+    repeat split; auto.
+    + rewrite E1. apply in_app_or in H. apply in_or_app. destruct H; [left|right; right]; assumption.
+    + intros ->. exact (ND2 H).
+    + exact (i_lt _ _ I _ Hin).
+  - repeat split; auto using (i_nodup _ _ I).
+    + pose proof (i_lt _ _ I _ H). lia.
+Qed.
+
+Lemma inv_get k s : prog (rq st r) = OGet s :: rest ->
+  inv progs (exec_op st r k (rq st r) (OGet s) rest).
+Proof.
+  intros Hp. pose proof (i_wf _ _ I r) as Hwf. rewrite Hp in Hwf. cbn [wf_from] in Hwf.
+  apply andb_prop in Hwf as [Hwf Hrest]. apply andb_prop in Hwf as [Hnp Hown].
+  apply negb_true_iff in Hnp. apply negb_true_iff in Hown. pose proof (not_pending_none _ Hnp) as Hpn.
+  pose proof (i_out _ _ I r) as Hout. rewrite Hp in Hout. unfold pend_d in Hout. rewrite Hpn in Hout.
+  unfold exec_op. destruct (take_pool k st) as [[b pl] fr] eqn:Htp.
+  destruct (take_pool_spec _ _ _ _ Htp) as (ND & Hpl & Hfr & Hb & Hbsrc).
+  (* nobody holds b *)
+  assert (Hfree : forall r0 s0 b', get2 (own (rq st r0)) s0 = true -> get2 (arr (rq st r0)) s0 = Some b' ->
+                    b' <> b /\ (b' < fr)%nat /\ ~ In b' pl /\ heap st b' = get2 (loc (rq st r0)) s0).
+  { intros r0 s0 b' Ho A'. destruct (i_own _ _ I r0 s0 Ho) as (b2 & A2 & L2 & N2 & H2).
+    assert (b2 = b') by congruence. subst b2. repeat split; auto.
+    - intros ->. destruct Hbsrc as [Hi| ->]; [exact (N2 Hi)|lia].
+    - lia.
+    - intros Hi. exact (N2 (proj1 (Hpl _ Hi))). }
+  constructor; cbn [heap pool fresh rq].
+  - exact ND.
+  - intros x Hi. destruct (Hpl _ Hi) as [Hi' _]. pose proof (i_lt _ _ I _ Hi'). lia.
+  - intros r0 s0 Ho. upd_split r0; cbn [own arr loc] in *.
+    + subst r0. destruct (slot_dec s s0) as [<-|Hs].
+      * exists b. rewrite !get2_set2_same, upd_same. repeat split; auto.
+        intros Hi. exact (proj2 (Hpl _ Hi) eq_refl).
+      * rewrite get2_set2_other in Ho by exact Hs.
+        destruct (i_own _ _ I r s0 Ho) as (b' & A' & _).
+        destruct (Hfree r s0 b' Ho A') as (Hne & L' & N' & H').
+        exists b'. rewrite !get2_set2_other by exact Hs. repeat split; auto.
+        rewrite upd_other; [exact H'|exact Hne].
+    + destruct (i_own _ _ I r0 s0 Ho) as (b' & A' & _).
+      destruct (Hfree r0 s0 b' Ho A') as (Hne & L' & N' & H').
+      exists b'. repeat split; auto. rewrite upd_other; [exact H'|exact Hne].
+  - intros r0 s0 r1 s1 b0 Ho0 Ho1 A0 A1.
+    assert (Hold : forall s2, s <> s2 -> get2 (set2 (own (rq st r)) s true) s2 = true ->
+              get2 (set2 (arr (rq st r)) s (Some b)) s2 = Some b0 ->
+              get2 (own (rq st r)) s2 = true /\ get2 (arr (rq st r)) s2 = Some b0).
+    { intros s2 Hs. rewrite !get2_set2_other by exact Hs. auto. }
+    upd_split r0; upd_split r1; cbn [own arr loc] in *; subst.
+    + split; [reflexivity|]. destruct (slot_dec s s0) as [<-|Hs0]; destruct (slot_dec s s1) as [<-|Hs1]; [reflexivity| | |].
+      * rewrite get2_set2_same in A0. inversion A0; subst b0.
+        destruct (Hold _ Hs1 Ho1 A1) as [O1 A1']. destruct (Hfree _ _ _ O1 A1') as [Hne _]. congruence.
+      * rewrite get2_set2_same in A1. inversion A1; subst b0.
+        destruct (Hold _ Hs0 Ho0 A0) as [O0 A0']. destruct (Hfree _ _ _ O0 A0') as [Hne _]. congruence.
+      * destruct (Hold _ Hs0 Ho0 A0) as [O0 A0']. destruct (Hold _ Hs1 Ho1 A1) as [O1 A1'].
+        exact (proj2 (i_excl _ _ I r s0 r s1 b0 O0 O1 A0' A1')).
+    + destruct (slot_dec s s0) as [<-|Hs0].
+      * rewrite get2_set2_same in A0. inversion A0; subst b0.
+        destruct (Hfree _ _ _ Ho1 A1) as [Hne _]. congruence.
+      * destruct (Hold _ Hs0 Ho0 A0) as [O0 A0']. eapply (i_excl _ _ I); eauto.
+    + destruct (slot_dec s s1) as [<-|Hs1].
+      * rewrite get2_set2_same in A1. inversion A1; subst b0.
+        destruct (Hfree _ _ _ Ho0 A0) as [Hne _]. congruence.
+      * destruct (Hold _ Hs1 Ho1 A1) as [O1 A1']. eapply (i_excl _ _ I); eauto.
+    + eapply (i_excl _ _ I); eauto.
+  - intros r0 b0 off0 len0 d0 Hpd0. upd_split r0; cbn [pend own arr loc] in *.
+    + congruence.
+    + exact (i_pend _ _ I r0 _ _ _ _ Hpd0).
+  - intros r0. upd_split r0; [|exact (i_wf _ _ I r0)].
+    unfold is_pending; cbn [pend own prog]. rewrite Hpn. exact Hrest.
+  - intros r0. upd_split r0; [|exact (i_out _ _ I r0)].
+    subst r0. unfold pend_d; cbn [outs pend loc prog]. rewrite Hpn. exact Hout.
+Qed.
+
+End Step.
+
+Lemma inv_step progs st x : inv progs st -> inv progs (mstep st x).
+Proof.
+  intros I. destruct x as [r k|f]; cbn [mstep].
+  - destruct (prog (rq st r)) as [|o rest] eqn:Hp; [exact I|].
+    destruct o; [apply inv_get|apply inv_write|apply inv_in|apply inv_ret|apply inv_put]; assumption.
+  - constructor; cbn [heap pool fresh rq].
+    + exact (i_nodup _ _ I).
+    + exact (i_lt _ _ I).
+    + intros r s Ho. destruct (i_own _ _ I r s Ho) as (b & A & L & N & H).
+      exists b. repeat split; auto.
+      destruct (existsb (Nat.eqb b) (pool st)) eqn:E; [|exact H].
+      apply existsb_eqb_in in E. contradiction.
+    + exact (i_excl _ _ I).
+    + exact (i_pend _ _ I).
+    + exact (i_wf _ _ I).
+    + exact (i_out _ _ I).
+Qed.
+
+Lemma inv_run progs sch : forall st, inv progs st -> inv progs (run_sched sch st).
+Proof.
+  induction sch as [|x sch IH]; intros st I; [exact I|]. cbn [run_sched fold_left]. apply IH, inv_step, I.
+Qed.
+
+(* any programs that keep the discipline, any schedule, any pool behaviour, any scribbling over free buffers:
+   what the controller reads when it finally looks is what the request handed over *)
+Lemma pool_views_stable progs sch r :
+  (forall r, wf_from (mk2 false false) false (progs r) = true) ->
+  let st := run_sched sch (init_st progs) in
+  prog (rq st r) = [] -> rev (outs (rq st r)) = intended (mk2 [] []) (progs r).
+Proof.
+  intros Hwf st Hp. pose proof (inv_run progs sch _ (inv_init progs Hwf)) as I. fold st in I.
+  pose proof (i_wf _ _ I r) as W. pose proof (i_out _ _ I r) as O. rewrite Hp in W, O.
+  cbn [wf_from] in W. apply negb_true_iff in W. unfold pend_d in O.
+  rewrite (not_pending_none _ W) in O. cbn [intended app] in O. rewrite app_nil_r in O. exact O.
+Qed.
+
+(* ---- processBulk as a program keeps the discipline and intends the events of the value-level model ---- *)
+Fixpoint body_ok (pending : bool) (p : list op) : bool :=
+  match p with
+  | [] => negb pending
+  | OWrite _ _ :: p' => negb pending && body_ok false p'
+  | OIn _ _ _ :: p' => negb pending && body_ok true p'
+  | ORet :: p' => pending && body_ok false p'
+  | _ => false
+  end.
+
+Lemma wf_body o q : get2 o RB = true -> get2 o EB = true ->
+  forall p pending, body_ok pending p = true -> wf_from o pending (p ++ q) = wf_from o false q.
+Proof.
+  intros HR HE. assert (Hs : forall s, get2 o s = true) by (intros []; assumption).
+  induction p as [|x p IH]; intros pending H; cbn [body_ok app] in *.
+  - apply negb_true_iff in H. subst. reflexivity.
+  - destruct x; try discriminate; cbn [wf_from]; apply andb_prop in H as [H1 H2]; rewrite H1, ?Hs; cbn [andb];
+      apply IH, H2.
+Qed.
+
+Lemma body_ok_app p q : forall pending, body_ok pending p = true -> body_ok false q = true ->
+  body_ok pending (p ++ q) = true.
+Proof.
+  induction p as [|x p IH]; intros pending H Hq; cbn [body_ok app] in *.
+  - apply negb_true_iff in H. subst. exact Hq.
+  - destruct x; try discriminate; apply andb_prop in H as [H1 H2]; rewrite H1; cbn [andb]; apply IH; assumption.
+Qed.
+
+Lemma body_ok_scan full rb : forall nlPos pos eb, body_ok false (scan_ops full rb nlPos pos eb) = true.
+Proof.
+  induction rb as [|c rb IH]; intros nlPos pos eb; cbn [scan_ops]; [reflexivity|].
+  destruct (N.eqb c NL); [|apply IH].
+  apply body_ok_app; [destruct eb; reflexivity|apply IH].
+Qed.
+
+Lemma body_ok_loop reads : forall eb, body_ok false (loop_ops false reads eb) = true.
+Proof.
+  induction reads as [|x rs IH]; intros eb; cbn [loop_ops app].
+  - destruct eb; reflexivity.
+  - destruct x as [c|]; [|reflexivity]. cbn [body_ok negb andb].
+    apply body_ok_app; [apply body_ok_scan|apply IH].
+Qed.
+
+Lemma wf_bulk_ops reads : wf_from (mk2 false false) false (bulk_ops reads) = true.
+Proof.
+  unfold bulk_ops. cbn [wf_from get2 set2 at_rb at_eb negb andb].
+  rewrite (wf_body (mk2 true true) _ eq_refl eq_refl _ _ (body_ok_loop reads [])). reflexivity.
+Qed.
+
+Fixpoint loc_after (l : two bytes) (p : list op) : two bytes :=
+  match p with
+  | [] => l
+  | OGet s :: p' => loc_after (set2 l s []) p'
+  | OWrite s d :: p' => loc_after (set2 l s d) p'
+  | _ :: p' => loc_after l p'
+  end.
+
+Lemma intended_app p q : forall l, intended l (p ++ q) = intended l p ++ intended (loc_after l p) q.
+Proof.
+  induction p as [|x p IH]; intros l; cbn [app intended loc_after]; [reflexivity|].
+  destruct x; cbn [app]; rewrite ?IH; reflexivity.
+Qed.
+
+Lemma loc_after_app p q : forall l, loc_after l (p ++ q) = loc_after (loc_after l p) q.
+Proof.
+  induction p as [|x p IH]; intros l; cbn [app loc_after]; [reflexivity|]. destruct x; apply IH.
+Qed.
+
+Lemma view_all l : view l 0 (length l) = l.
+Proof. unfold view. cbn [skipn]. apply firstn_all. Qed.
+
+Lemma view_snoc (pre rb' : bytes) c nlPos : (nlPos <= length pre)%nat ->
+  view (pre ++ c :: rb') nlPos (S (length pre) - nlPos) = view (pre ++ c :: rb') nlPos (length pre - nlPos) ++ [c].
+Proof.
+  intros Hle. unfold view. rewrite skipn_app. replace (nlPos - length pre)%nat with 0%nat by lia. cbn [skipn].
+  set (p2 := skipn nlPos pre).
+  assert (Hl2 : length p2 = (length pre - nlPos)%nat) by apply skipn_length.
+  replace (S (length pre) - nlPos)%nat with (length p2 + 1)%nat by lia. rewrite <- Hl2.
+  rewrite firstn_app_2. cbn [firstn].
+  rewrite firstn_app, firstn_all, Nat.sub_diag. cbn [firstn]. rewrite app_nil_r. reflexivity.
+Qed.
+
+Lemma scan_ops_spec rb : forall full pre nlPos eb l,
+  full = pre ++ rb -> at_rb l = full -> (nlPos <= length pre)%nat ->
+  let acc := eb ++ view full nlPos (length pre - nlPos) in
+  intended l (scan_ops full rb nlPos (length pre) eb) = fst (split_acc rb acc) /\
+  loc_after l (scan_ops full rb nlPos (length pre) eb) = mk2 (at_rb l) (snd (split_acc rb acc)).
+Proof.
+  induction rb as [|c rb IH]; intros full pre nlPos eb l Hfull Hrb Hle acc; cbn [scan_ops split_acc].
+  - cbn [intended loc_after set2 fst snd]. split; reflexivity.
+  - assert (Hfull' : full = (pre ++ [c]) ++ rb) by (rewrite <- app_assoc; exact Hfull).
+    assert (Hlen : length (pre ++ [c]) = S (length pre)) by (rewrite app_length; cbn; lia).
+    destruct (N.eqb c NL) eqn:Hc.
+    + assert (Hnil : [] ++ view full (S (length pre)) (length (pre ++ [c]) - S (length pre)) = []).
+      { rewrite Hlen, Nat.sub_diag. reflexivity. }
+      rewrite intended_app, loc_after_app.
+      destruct eb as [|e eb].
+      * cbn [intended loc_after].
+        destruct (IH full (pre ++ [c]) (S (length pre)) [] l Hfull' Hrb ltac:(lia)) as [I1 I2].
+        cbv zeta in I1, I2. rewrite Hnil, Hlen in *.
+        destruct (split_acc rb []) as [ls t]. cbn [fst snd] in *. subst acc. cbn [app get2].
+        split; [f_equal; [apply (f_equal (fun x => view x nlPos (length pre - nlPos)) Hrb)|exact I1]|exact I2].
+      * cbn [intended loc_after get2 set2 at_rb at_eb].
+        set (l' := mk2 (at_rb l) []).
+        destruct (IH full (pre ++ [c]) (S (length pre)) [] l' Hfull' Hrb ltac:(lia)) as [I1 I2].
+        cbv zeta in I1, I2. rewrite Hnil, Hlen in *.
+        destruct (split_acc rb []) as [ls t]. cbn [fst snd] in *. subst acc l'. cbn [app get2] in *.
+        split; [f_equal; [apply view_all|exact I1]|exact I2].
+    + destruct (IH full (pre ++ [c]) nlPos eb l Hfull' Hrb ltac:(lia)) as [I1 I2].
+      cbv zeta in I1, I2. rewrite Hlen in *.
+      assert (Hacc : eb ++ view full nlPos (S (length pre) - nlPos) = acc ++ [c]).
+      { unfold acc. rewrite Hfull, view_snoc by exact Hle. rewrite app_assoc. reflexivity. }
+      rewrite Hacc in *. split; assumption.
+Qed.
+
+Definition bulk_events (reads : list rd) (eb : bytes) : list bytes :=
+  let '(evs, eb', ok) := bulk_loop reads eb in
+  if ok then match eb' with [] => evs | _ :: _ => evs ++ [eb'] end else evs.
+
+Lemma bulk_events_process reads : fst (process_bulk_rd reads) = bulk_events reads [].
+Proof.
+  unfold process_bulk_rd, bulk_events. destruct (bulk_loop reads []) as [[evs eb] ok].
+  destruct ok; [|reflexivity]. destruct eb; [reflexivity|]. rewrite process_chunk_last. reflexivity.
+Qed.
+
+Lemma loop_ops_spec reads : forall eb l, at_eb l = eb ->
+  intended l (loop_ops false reads eb) = bulk_events reads eb.
+Proof.
+  induction reads as [|x rs IH]; intros eb l Heb; cbn [loop_ops app]; unfold bulk_events; cbn [bulk_loop].
+  - destruct eb; [reflexivity|]. cbn [intended get2]. rewrite Heb, view_all. reflexivity.
+  - destruct x as [c|]; [|reflexivity].
+    cbn [intended]. rewrite intended_app.
+    destruct (scan_ops_spec c c [] 0%nat eb (set2 l RB c) eq_refl eq_refl (Nat.le_refl _)) as [S1 S2].
+    cbv zeta in S1, S2. cbn [length Nat.sub] in S1, S2.
+    assert (Hv : eb ++ view c 0 0 = eb) by (unfold view; cbn; apply app_nil_r).
+    rewrite Hv in S1, S2. rewrite S1, S2, process_chunk_false.
+    destruct (split_acc c eb) as [e1 eb1] eqn:Hs. cbn [fst snd].
+    erewrite IH by reflexivity. unfold bulk_events.
+    destruct (bulk_loop rs eb1) as [[e2 eb2] ok].
+    destruct ok; [|reflexivity]. destruct eb2; [reflexivity|]. rewrite app_assoc. reflexivity.
+Qed.
+
+Lemma intended_bulk_ops reads : intended (mk2 [] []) (bulk_ops reads) = fst (process_bulk_rd reads).
+Proof.
+  unfold bulk_ops. cbn [intended set2 at_rb at_eb]. rewrite intended_app.
+  erewrite loop_ops_spec by reflexivity. rewrite bulk_events_process. cbn [intended].
+  apply app_nil_r.
+Qed.
+
+(* every interleaving of processBulk runs over shared pools, with a controller that reads each view as late as it
+   likes: a request that has run to its end has delivered exactly the events of its own body *)
+Lemma http_pool_no_alias (reads : nat -> list rd) sch r :
+  let st := run_sched sch (init_st (fun r => bulk_ops (reads r))) in
+  prog (rq st r) = [] -> rev (outs (rq st r)) = fst (process_bulk_rd (reads r)).
+Proof.
+  intros st Hp. unfold st in *.
+  rewrite (pool_views_stable (fun r => bulk_ops (reads r)) sch r (fun r0 => wf_bulk_ops (reads r0)) Hp).
+  apply intended_bulk_ops.
 Qed.
